@@ -197,8 +197,10 @@ def prop(pid, **kw):
 
 
 prop("C01", harness="h_exact",
-     quick=dict(shards=16, cases=6000, env={"VERIF_MAXN": "14"}),
-     thorough=dict(shards=16, cases=60000, env={"VERIF_MAXN": "40"}),
+     quick=dict(shards=16, cases=6000, env={"VERIF_MAXN": "14"},
+                extra_phases=[dict(shards=16, cases=300, env={"VERIF_MAXN": "40", "VERIF_MAXM": "110"}, seed_offset=400)]),
+     thorough=dict(shards=16, cases=60000, env={"VERIF_MAXN": "40"},
+                   extra_phases=[dict(shards=16, cases=1500, env={"VERIF_MAXN": "80", "VERIF_MAXM": "220"}, seed_offset=400)]),
      rule="Generated simple graphs (12 shape families incl. empty/forest/multi-component, disjoint unions, pendant trees, "
           "vertex+edge-order permutations) x exact weight palettes x {double,int} x {signed,fvs_trees,iso_trees}; oracle: "
           "count==m-n+c (union-find), every cycle one simple cycle of the caller's graph (descriptor identity), GF(2) rank == count. "
@@ -206,7 +208,8 @@ prop("C01", harness="h_exact",
      assumptions=["weights are exactly summable (dyadic/integer), graphs simple: the property's stated domain",
                   "output iterator is a back_inserter into std::list<std::list<edge>> as in every caller in the repository"])
 prop("C02", harness="h_exact",
-     quick=dict(shards=16, cases=6000, env={"VERIF_MAXN": "12"}, fuzz=dict(harness="fz_mcb", jobs=4, runs=8000, max_len=64)),
+     quick=dict(shards=16, cases=6000, env={"VERIF_MAXN": "12"}, fuzz=dict(harness="fz_mcb", jobs=4, runs=8000, max_len=64),
+                extra_phases=[dict(shards=16, cases=250, env={"VERIF_MAXN": "36", "VERIF_MAXM": "100"}, seed_offset=400)]),
      thorough=dict(shards=16, cases=60000, env={"VERIF_MAXN": "32"}, fuzz=dict(harness="fz_mcb", jobs=16, time=240, max_len=64)),
      rule="Same generator as C01; oracle: returned value == exact sum of emitted cycle weights, == optimum from an independent "
           "reference (brute force over all simple cycles + greedy GF(2) independence for n<=8,m<=22; textbook de Pina with plain "
@@ -239,7 +242,8 @@ prop("C09", harness="h_exact",
      assumptions=["weights are doubles >= 2^-10 so every weight is an exact multiple of 2^-62"])
 prop("C03", harness="h_sched",
      quick=dict(shards=16, cases=2500, env={"VERIF_MAXN": "12"},
-                extra_phases=[dict(harness="h_sched_tsan", shards=8, cases=250, env={"VERIF_MAXN": "10", "TSAN_OPTIONS": "halt_on_error=1:exitcode=66:report_signal_unsafe=0"}, seed_offset=300)]),
+                extra_phases=[dict(shards=16, cases=200, env={"VERIF_MAXN": "30", "VERIF_MAXM": "90"}, seed_offset=400),
+                              dict(harness="h_sched_tsan", shards=8, cases=250, env={"VERIF_MAXN": "10", "TSAN_OPTIONS": "halt_on_error=1:exitcode=66:report_signal_unsafe=0"}, seed_offset=300)]),
      thorough=dict(shards=16, cases=20000, env={"VERIF_MAXN": "22"},
                    extra_phases=[dict(harness="h_sched_tsan", shards=16, cases=2500, env={"VERIF_MAXN": "12", "TSAN_OPTIONS": "halt_on_error=1:exitcode=66:report_signal_unsafe=0"}, seed_offset=300)]),
      rule="Generated graph x exact palette x the six *_tbb entry points (k in 1..4 for approximate) x a generated SCHEDULE TAPE interpreted by a "
@@ -272,8 +276,10 @@ prop("C04", harness="h_mpi",
      assumptions=["exact weight domain", "heap layouts are sampled through allocator perturbation (glibc malloc; harness built with UBSan only, no ASan), not enumerated",
                   "deadlock is observed through a generous wall-clock watchdog on the whole job, replayed 3x before it is reported"])
 prop("C05", harness="h_approx",
-     quick=dict(shards=16, cases=3000, env={"VERIF_MAXN": "16"}),
-     thorough=dict(shards=16, cases=20000, env={"VERIF_MAXN": "40"}),
+     quick=dict(shards=16, cases=3000, env={"VERIF_MAXN": "16"},
+                extra_phases=[dict(shards=16, cases=200, env={"VERIF_MAXN": "45", "VERIF_MAXM": "130"}, seed_offset=400)]),
+     thorough=dict(shards=16, cases=20000, env={"VERIF_MAXN": "40"},
+                   extra_phases=[dict(shards=16, cases=1500, env={"VERIF_MAXN": "90", "VERIF_MAXM": "260"}, seed_offset=400)]),
      rule="Generated graphs x exact palettes x {double,int} x k in {1,2,3,4..8,100,10^6,2^62+1} x three sequential approximate entry points; "
           "oracle: exactly m-n+c cycles, each one simple cycle expressed in edge descriptors OF THE CALLER'S GRAPH (property-address identity, "
           "checked and dereferenced through the caller's weight map after the call returned, under ASan), GF(2) rank == count, returned == exact "
@@ -281,8 +287,10 @@ prop("C05", harness="h_approx",
           "edge was dropped (read through the guarded accessors).",
      assumptions=["exact weight domain", "Graph has an interior edge_weight property of the weight type (required by BaseApproxSpannerAlgorithm)"])
 prop("C06", harness="h_approx",
-     quick=dict(shards=16, cases=3000, env={"VERIF_MAXN": "12"}),
-     thorough=dict(shards=16, cases=20000, env={"VERIF_MAXN": "30"}),
+     quick=dict(shards=16, cases=3000, env={"VERIF_MAXN": "12"},
+                extra_phases=[dict(shards=16, cases=200, env={"VERIF_MAXN": "32", "VERIF_MAXM": "90"}, seed_offset=400)]),
+     thorough=dict(shards=16, cases=20000, env={"VERIF_MAXN": "30"},
+                   extra_phases=[dict(shards=16, cases=1200, env={"VERIF_MAXN": "45", "VERIF_MAXM": "140"}, seed_offset=400)]),
      rule="As C05 plus k=0; oracle: exact integer comparison sum <= (2k-1)*opt and sum >= opt against the reference optimum (brute force / de Pina); "
           "k=1: sum == opt and equal sorted weight vectors; k=0: a std::exception is thrown and nothing is emitted. Non-trivial = k>=2 and >=1 "
           "dropped edge (class 'approximation-strictly-worse-than-optimum' counts the cases where the bound is really exercised).",
@@ -327,31 +335,41 @@ prop("C18", harness="h_alg",
                   "and |scalar|*p are representable in T (the equations of the property must be evaluable in the type); cpp_int unrestricted up to 2^200",
                   "is_prime: whole int range; long/cpp_int restricted by trial-division cost to p < 2^36 or numbers with a factor <= 997"])
 prop("C12", harness="h_comp",
-     quick=dict(shards=16, cases=1000, env={"VERIF_MAXN": "14"}),
-     thorough=dict(shards=16, cases=15000, env={"VERIF_MAXN": "22"}),
+     quick=dict(shards=16, cases=4000, env={"VERIF_MAXN": "14"},
+                extra_phases=[dict(shards=16, cases=150, env={"VERIF_MAXN": "40", "VERIF_MAXM": "120"}, seed_offset=400)]),
+     thorough=dict(shards=16, cases=30000, env={"VERIF_MAXN": "22"},
+                   extra_phases=[dict(shards=16, cases=1500, env={"VERIF_MAXN": "60", "VERIF_MAXM": "200"}, seed_offset=400)]),
      rule="Generated graphs with tie-heavy exact palettes (80% unit/{1,2}/{1,2,3}) x {double,int}; all n SPTree objects are built and "
           "compared with an exact Dijkstra APSP oracle: node==nullptr iff unreachable, weight()==d(s,v), every pred edge tight, pred chain "
           "reaches the root, first(v)==child of root on the path; across trees: path(u,v)==reverse path(v,u) and every sub-path of a chosen "
           "path is the chosen path between its endpoints. Non-trivial = some ordered pair has >=2 distinct shortest paths (path counting in the oracle).",
      assumptions=["exact weight domain", "index/weight maps outlive the trees (as in the library's own callers)"])
 prop("C13", harness="h_comp",
-     quick=dict(shards=16, cases=4000, env={"VERIF_MAXN": "30"}),
-     thorough=dict(shards=16, cases=80000, env={"VERIF_MAXN": "60"}),
+     quick=dict(shards=16, cases=6000, env={"VERIF_MAXN": "30"},
+                extra_phases=[dict(shards=16, cases=300, env={"VERIF_MAXN": "300", "VERIF_MAXM": "900"}, seed_offset=400)]),
+     thorough=dict(shards=16, cases=80000, env={"VERIF_MAXN": "60"},
+                   extra_phases=[dict(shards=16, cases=3000, env={"VERIF_MAXN": "1500", "VERIF_MAXM": "5000"}, seed_offset=400)]),
      rule="Generated simple graphs (all shapes, extra pendant trees) -> greedy_fvs; oracle: outputs are vertices, pairwise distinct, removing "
           "them leaves a forest (union-find), forest input -> empty output. Non-trivial = graph has a cycle and, replaying the emitted order, "
           "removing a chosen vertex triggers at least one leaf clean-up removal.",
      assumptions=["simple undirected graphs"])
 prop("C14", harness="h_comp",
-     quick=dict(shards=16, cases=800, env={"VERIF_MAXN": "12"}),
-     thorough=dict(shards=16, cases=10000, env={"VERIF_MAXN": "20"}),
+     quick=dict(shards=16, cases=3000, env={"VERIF_MAXN": "12"},
+                extra_phases=[dict(shards=16, cases=150, env={"VERIF_MAXN": "30", "VERIF_MAXM": "90"}, seed_offset=400)]),
+     thorough=dict(shards=16, cases=20000, env={"VERIF_MAXN": "20"},
+                   extra_phases=[dict(shards=16, cases=1200, env={"VERIF_MAXN": "45", "VERIF_MAXM": "140"}, seed_offset=400)]),
      rule="Generated graphs x exact palettes x {double,int}; Horton, FVS and ISO builders called directly. Oracle per candidate: edge not a "
           "tree edge, both root paths exist and meet only at the root, union is one simple cycle, recorded weight == exact sum; FVS and ISO "
           "are subsets of Horton as (root,edge) pairs with identical cycles; greedy-by-weight with GF(2) independence over each collection "
           "reaches dimension m-n+c and the reference optimum weight. Non-trivial = dimension>=2 and |ISO|<|Horton|.",
      assumptions=["exact weight domain"])
 prop("C16", harness="h_comp",
-     quick=dict(shards=16, cases=5000, env={"VERIF_MAXN": "30"}),
-     thorough=dict(shards=16, cases=100000, env={"VERIF_MAXN": "60"}),
+     quick=dict(shards=16, cases=5000, env={"VERIF_MAXN": "30"},
+                extra_phases=[dict(shards=16, cases=60, env={"VERIF_MAXN": "1300", "VERIF_MAXM": "4000"}, seed_offset=400),
+                              dict(shards=16, cases=300, env={"VERIF_MAXN": "300", "VERIF_MAXM": "700"}, seed_offset=450)]),
+     thorough=dict(shards=16, cases=100000, env={"VERIF_MAXN": "60"},
+                   extra_phases=[dict(shards=16, cases=600, env={"VERIF_MAXN": "5000", "VERIF_MAXM": "20000"}, seed_offset=400),
+                                 dict(shards=16, cases=5000, env={"VERIF_MAXN": "300", "VERIF_MAXM": "700"}, seed_offset=450)]),
      rule="Generated simple graphs incl. empty, edgeless, forests, many components; oracle: indices are a bijection onto 0..m-1, both lookups "
           "inverse, components == union-find count, dimension == m-n+c, is_on_forest iff index>=dimension, on-forest edges acyclic and n-c many, "
           "copy/assignment preserve the mapping. Non-trivial = >=2 components and dimension>=1.",
